@@ -291,6 +291,14 @@ func c15Check(c *config, f *ir.Func, u c15User, kind string) {
 	} else {
 		o.Pass("operands_complete")
 	}
+	// no two slots are the same cell (a slot that aliases another leaves one operand without a slot)
+	for i := range ops {
+		for j := i + 1; j < len(ops); j++ {
+			if ops[i] == ops[j] {
+				o.Fail("operands_complete", "", fmt.Sprintf("operand slots %d and %d are one and the same cell", i, j), det)
+			}
+		}
+	}
 	// live: a write through each slot changes the printed instruction, and undoing it restores it
 	for i, slot := range ops {
 		old := *slot
